@@ -16,7 +16,7 @@ import os
 os.environ.setdefault('OMP_NUM_THREADS', '1')
 os.environ.setdefault('OPENBLAS_NUM_THREADS', '1')
 os.environ.setdefault('MKL_NUM_THREADS', '1')
-import sys, warnings
+import sys, time, warnings
 import numpy as np
 
 REPO = os.environ.get('DFOLS_REPO', '/repo')
@@ -26,8 +26,10 @@ if REPO not in sys.path:
 PID = 'C06'
 RTOL = 1e-3             # property: within 1e-3*(1+F*)
 REF_RTOL = 1e-8         # certified accuracy of the reference
-CASES_PER_TASK = 2
-NTASKS = {'quick': 96, 'thorough': 1920}
+CASES_PER_TASK = 1
+NTASKS = {'quick': 192, 'thorough': 3840}
+CPU_LIMIT_SCALING = 7.0   # s of CPU per known-limitation (scaling) case: Dykstra runs to its iteration cap there (up to 45 s)
+CPU_LIMIT = 40.0          # s of CPU for an ordinary case (largest seen: 7 s); beyond it the case is dropped and counted
 SCALING_SHARE = 0.06    # share of bounded cases run with scaling_within_bounds=True (known limitation)
 COND_MAX = 30.0
 
@@ -42,7 +44,7 @@ RULE = ("Cases: n uniform in 1..6, m = n + extra, extra in {0, 1, 2, n, 2n} (m >
         "x0_outside}; box widths >= 2.5*default rhobeg; calling convention in {closure: argsh=argsprox=(), args: "
         "argsh=(lam, token), argsprox=(lam, token2), mixed: only argsh / only argsprox}; npt = n+1 (default) or up to "
         "2n+1; scaling_within_bounds False except for a ~6% share of bounded cases (reported only as "
-        "C06:scaling_with_regulariser).  A case is NON-TRIVIAL iff neither the (projected) starting point nor the minimiser "
+        "C06:scaling_with_regulariser; these are cut off after 7 s of CPU and then counted as flag=cpu_limit, not judged).  A case is NON-TRIVIAL iff neither the (projected) starting point nor the minimiser "
         "of the un-regularised bounded problem is within the tolerance 1e-3*(1+F*) of F* (i.e. the solver has to move "
         "and the regulariser matters); the numbers of exactly-zero components and of active bounds at the reference "
         "minimiser are in stats.")
@@ -401,6 +403,10 @@ def case_from_data(d):
 
 
 # ----------------------------------------------------------------------------------------------- judge one case
+class _CpuLimit(Exception):
+    pass
+
+
 class _Token(object):
     """an opaque extra argument: must arrive as the very same object"""
     def __init__(self, name):
@@ -420,9 +426,13 @@ def run_case(c):
     argsh = (lam, tok_h) if use_argsh else ()
     argsprox = (lam, tok_p) if use_argsprox else ()
     rec = dict(h_calls=0, prox_calls=0, h_bad=[], prox_bad=[])
+    cpu_limit = c.get('cpu_limit')
+    t_start = time.process_time()
 
     def h(x, *args):
         rec['h_calls'] += 1
+        if cpu_limit is not None and rec['h_calls'] % 256 == 0 and time.process_time() - t_start > cpu_limit:
+            raise _CpuLimit()
         ok = (len(args) == len(argsh)) and all(a is e for a, e in zip(args, argsh)) and np.shape(x) == (n,)
         if not ok and len(rec['h_bad']) < 3:
             rec['h_bad'].append('h got x shape %s, %d extra args %s' % (np.shape(x), len(args), [type(a).__name__ for a in args]))
@@ -464,13 +474,18 @@ def run_case(c):
             soln = dfols.solve(objfun, x0.copy(), h=h, lh=lh, prox_uh=prox, argsh=argsh, argsprox=argsprox,
                                bounds=None if xl is None else (xl.copy(), xu.copy()), npt=c['npt'],
                                scaling_within_bounds=sc, do_logging=False)
+    except _CpuLimit:
+        info.update(flag='cpu_limit', nf=0, gap=float('nan'), h_calls=rec['h_calls'], prox_calls=rec['prox_calls'],
+                    nontrivial=False)
+        return viol, info
     except Exception as ex:
         add('C06:solve_raised:%s' % type(ex).__name__, 'solve raised %s: %s (conv=%s kind=%s reg=%s)'
             % (type(ex).__name__, str(ex)[:200], c['conv'], c['kind'], reg))
         info.update(flag='raised', nf=0, gap=float('nan'), h_calls=rec['h_calls'], prox_calls=rec['prox_calls'])
         return viol, info
     info.update(flag=int(soln.flag), nf=int(soln.nf), h_calls=rec['h_calls'], prox_calls=rec['prox_calls'])
-    desc = 'reg=%s lam=%.4g n=%d m=%d npt=%d kind=%s conv=%s scaling=%s' % (reg, lam, n, m, c['npt'], c['kind'], c['conv'], sc)
+    desc = 'reg=%s lam=%.4g n=%d m=%d npt=%d kind=%s conv=%s scaling=%s; reference minimiser has %d zero components, %d active bounds' % (
+        reg, lam, n, m, c['npt'], c['kind'], c['conv'], sc, info['nzero'], info['nactive'])
     if rec['h_bad']:
         viol.append(dict(signature='C06:args_not_passed:h', what='; '.join(rec['h_bad']) + ' | ' + desc,
                          data=dict(data, signature='C06:args_not_passed:h')))
@@ -501,7 +516,7 @@ def run_case(c):
 
 # ----------------------------------------------------------------------------------------------- interface
 def tasks(seed, tier):
-    return [dict(seed=int(seed), idx=i, ncases=CASES_PER_TASK) for i in range(NTASKS.get(tier, NTASKS['quick']))]
+    return [dict(seed=int(seed), idx=i, ncases=CASES_PER_TASK, cpu_scale=1.0) for i in range(NTASKS.get(tier, NTASKS['quick']))]
 
 
 def _dec(v):
@@ -514,6 +529,7 @@ def run_task(task):
     for j in range(task['ncases']):
         rng = np.random.default_rng((task['seed'], task['idx'], j))
         c = gen_case(rng)
+        c['cpu_limit'] = (CPU_LIMIT_SCALING if c['scaling'] else CPU_LIMIT) * task.get('cpu_scale', 1.0)
         viol, info = run_case(c)
         ev += 1
         nt += 1 if info.get('nontrivial') else 0
